@@ -109,6 +109,7 @@ type vfWorld struct {
 	badInst  map[int]bool // instances whose ActorOf returned an error (must never receive anything)
 	prelaunchSeen map[string]int
 	schedMsgs     map[int]*vfSched
+	fut           *vfFutWorld
 	schedIdentity []string
 }
 
@@ -445,6 +446,13 @@ func (a *vfActor) handle(ctx vivid.ActorContext, beh string) {
 	if s := ctx.Sender(); s != nil {
 		aux = "from=" + s.GetPath()
 	}
+	if pr, ok := msg.(*vivid.PipeResult); ok {
+		v := ""
+		if rp, ok := pr.Message.(*vfReply); ok {
+			v = fmt.Sprintf("reply(ask=%d,n=%d)", rp.AskID, rp.N)
+		}
+		aux = fmt.Sprintf("pr(%s,%s)", v, vfErrKind(pr.Error))
+	}
 	w.add(vfEv{Kind: "recv", Path: path, Inst: a.inst, Beh: beh, Msg: tag, ID: id, Aux: aux})
 
 	switch m := msg.(type) {
@@ -464,6 +472,8 @@ func (a *vfActor) handle(ctx vivid.ActorContext, beh string) {
 		if a.spec.TrackStash {
 			w.add(vfEv{Kind: "api", Path: path, Msg: "stashcount", ID: ctx.StashCount()})
 		}
+	case *vfAskMsg:
+		a.onAskMsg(ctx, m, w.fut)
 	case *vfSched:
 		if m.Ref == "oncefail" {
 			a.fail(ctx, "scheduled")
@@ -583,6 +593,8 @@ func (a *vfActor) exec(ctx vivid.ActorContext, c *vfCmd) {
 		}
 	case "reply":
 		ctx.Reply(c.Arg)
+	case "ask":
+		a.execAsk(ctx, c.Arg.(vfAskSpec), w.fut)
 	case "sched":
 		sc := c.Arg.(*vfSchedCmd)
 		w.mu.Lock()
